@@ -33,7 +33,7 @@ type c11Patch struct {
 	Minus  []impSpec // '-' imports (Name "$" = identifier metavariable)
 	Ctx    []impSpec // context imports
 	Plus   []impSpec // '+' imports
-	Extra  []string // further paths the file must import for the patch's guards to hold (each under a random name, used or not)
+	Extra  []string  // further paths the file must import for the patch's guards to hold (each under a random name, used or not)
 	Needs  func(name string) bool
 	Site   func(name string, r *rand.Rand) string // an instance of the code pattern, given the file's name for P
 	Action string
@@ -43,11 +43,11 @@ var c11Patches = []c11Patch{
 	{Name: "replace-unnamed", Action: "replace-path",
 		Text:  "@@\n@@\n-import \"" + c11P + "\"\n+import \"" + c11Q + "\"\n\n-foo.Client\n+bar.Client\n",
 		Minus: []impSpec{{"", c11P}}, Plus: []impSpec{{"", c11Q}},
-		Site:  func(n string, r *rand.Rand) string { return n + ".Client" }},
+		Site: func(n string, r *rand.Rand) string { return n + ".Client" }},
 	{Name: "replace-any-keep-name", Action: "replace-path-metavar",
 		Text:  "@@\nvar foo, x identifier\n@@\n-import foo \"" + c11P + "\"\n+import foo \"" + c11Q + "\"\n\n foo.x\n",
 		Minus: []impSpec{{"$", c11P}}, Plus: []impSpec{{"$", c11Q}},
-		Site:  func(n string, r *rand.Rand) string { return n + ".Thing" }},
+		Site: func(n string, r *rand.Rand) string { return n + ".Thing" }},
 	{Name: "match-only", Action: "match",
 		Text: "@@\n@@\n import \"" + c11P + "\"\n\n-foo.Old()\n+foo.New()\n",
 		Ctx:  []impSpec{{"", c11P}},
@@ -67,11 +67,11 @@ var c11Patches = []c11Patch{
 	{Name: "delete-two-any", Action: "delete-metavar-two",
 		Text:  "@@\nvar foo, qux identifier\nvar x expression\n@@\n-import foo \"" + c11P + "\"\n-import qux \"example.com/old/qux\"\n\n-foo.Do(x)\n+do(x)\n",
 		Minus: []impSpec{{"$", c11P}, {"$", "example.com/old/qux"}}, Extra: []string{"example.com/old/qux"},
-		Site:  func(n string, r *rand.Rand) string { return n + ".Do(" + fmt.Sprint(r.Intn(9)) + ")" }},
+		Site: func(n string, r *rand.Rand) string { return n + ".Do(" + fmt.Sprint(r.Intn(9)) + ")" }},
 	{Name: "delete-two-any-reversed", Action: "delete-metavar-two",
 		Text:  "@@\nvar foo, qux identifier\nvar x expression\n@@\n-import qux \"example.com/old/qux\"\n-import foo \"" + c11P + "\"\n\n-foo.Do(x)\n+do(x)\n",
 		Minus: []impSpec{{"$", "example.com/old/qux"}, {"$", c11P}}, Extra: []string{"example.com/old/qux"},
-		Site:  func(n string, r *rand.Rand) string { return n + ".Do(" + fmt.Sprint(r.Intn(9)) + ")" }},
+		Site: func(n string, r *rand.Rand) string { return n + ".Do(" + fmt.Sprint(r.Intn(9)) + ")" }},
 	{Name: "add-only", Action: "add",
 		Text: "@@\nvar x expression\n@@\n+import \"" + c11Q + "\"\n\n-legacy(x)\n+bar.New(x)\n",
 		Plus: []impSpec{{"", c11Q}},
@@ -83,15 +83,15 @@ var c11Patches = []c11Patch{
 	{Name: "name-unnamed", Action: "rename",
 		Text:  "@@\nvar x identifier\n@@\n-import \"" + c11P + "\"\n+import foo \"" + c11P + "\"\n\n foo.x\n",
 		Minus: []impSpec{{"", c11P}}, Plus: []impSpec{{"foo", c11P}},
-		Site:  func(n string, r *rand.Rand) string { return n + ".Thing" }},
+		Site: func(n string, r *rand.Rand) string { return n + ".Thing" }},
 	{Name: "rename-named", Action: "rename",
 		Text:  "@@\nvar x identifier\n@@\n-import f \"" + c11P + "\"\n+import g \"" + c11P + "\"\n\n-f.x\n+g.x\n",
 		Minus: []impSpec{{"f", c11P}}, Plus: []impSpec{{"g", c11P}},
-		Site:  func(n string, r *rand.Rand) string { return n + ".Thing" }},
+		Site: func(n string, r *rand.Rand) string { return n + ".Thing" }},
 	{Name: "named-to-unnamed-new-path", Action: "replace-path",
 		Text:  "@@\nvar x identifier\n@@\n-import f \"" + c11P + "\"\n+import \"" + c11Q + "\"\n\n-f.x\n+bar.x\n",
 		Minus: []impSpec{{"f", c11P}}, Plus: []impSpec{{"", c11Q}},
-		Site:  func(n string, r *rand.Rand) string { return n + ".Thing" }},
+		Site: func(n string, r *rand.Rand) string { return n + ".Thing" }},
 }
 
 // c11Variant rewrites a patch for another pair of import paths whose last elements (the guessed
